@@ -81,6 +81,11 @@ CLAIMED = {
          'frames; the two CALC helpers save position and SFC_GET_NORM_DOUBLE and restore both on every path after the first change; GET commands read exactly `channels` stored peaks. '
          'Numerical equality with the true maxima is not decided.',
          'fact extraction from loop/branch structure + sibling agreement + save/restore PAIR (must-pass) rules'),
+ 'C20': ('DESIGN.md §4 C20',
+         'G.711 decode tables equal the ITU-T expansion for all 256 codes and the encode tables equal the G.711 compression on every grid magnitude (10 754 entries compared with references written '
+         'from the Recommendation), encode(decode(c)) = c; the sixteen array kernels use exactly the grid index expressions (negate before scaling, 0x7F sign mask); IMA / MS ADPCM / OKI tables equal '
+         'the published ones; the IMA step index clamp returns a value inside the table and scalar step-table indices are proven in range. IEEE serialiser arithmetic and sample-exact ADPCM decoding are not decided.',
+         'constant-table extraction (clang-folded initialisers) compared with independent references; required-expression facts; interval analysis for the clamp'),
 }
 REASONS = {}
 DEFAULT_REASON = 'check not built yet (work in progress); see DESIGN.md'
